@@ -328,6 +328,22 @@ def check_loo(case):
     if method in ORDER_METHODS and len(groups) == len(a):
         require(lo <= up + 1e-9, '%s: lower %.12g > upper %.12g' % (what, lo, up),
                 'ordering:' + method)
+    # a second ceiling with another measure on the very same object (a user comparing measures):
+    # it must be the ceiling of the data as given, whatever was computed from the object before
+    method2 = 'cosine' if method in ('corr', 'corr_cov') else 'corr'
+    if not singleton:
+        try:
+            want_lo2, want_up2 = cref.ceilings(np.nan_to_num(a), groups, method2, n=n, keep=keep)
+        except cref.Degenerate:
+            return
+        lo2, up2 = lib(boot_noise_ceiling, rd, method=method2, rdm_descriptor='grp',
+                       on_error='reject')
+        what2 = 'boot_noise_ceiling(%s) after boot_noise_ceiling(%s) on the same object' % (
+            method2, method)
+        require_close(lo2, want_lo2, what2 + ': lower bound', 'second-call:lower', rtol=1e-9,
+                      atol=1e-9)
+        require_close(up2, want_up2, what2 + ': upper bound', 'second-call:upper', rtol=1e-9,
+                      atol=1e-9)
 
 
 def classify_loo(case):
